@@ -427,6 +427,14 @@ def run_case(concepts, case, spec):
                 call(l_.__getitem__, tuple(c.objects[:1]))
                 call(l_, list(c.properties[:1]))
         common.registry_history(concepts, case, rng, queries)
+    if len(ctx.objects) <= 12 and len(ctx.properties) <= 12:
+        common.interference(concepts, ctx, lat, rng, 15)
+        for sub in rng.sample(keys, min(len(keys), 10)):
+            call(ctx.__getitem__, tuple(sub))
+            call(lat.__getitem__, tuple(sub))
+            if all(x in sh.pidx for x in sub):
+                call(lat, list(sub))
+        COL.count('asked_again_after_interference')
     old = POOL.older(rng)
     if old is not None:
         octx, olat = old
